@@ -28,7 +28,7 @@ AcceptBalanced ==
     LET nb == NonBlank(ls) IN
     /\ nb[1] = KStart /\ nb[Len(nb)] = KEnd
     /\ Count(ls, KEndLeg) <= Count(ls, KLegend) /\ (Count(ls, KLegend) > 0 => Count(ls, KEndLeg) > 0)
-    /\ c.classes = Cardinality(c.names)
+    /\ Cardinality(c.names) <= c.classes
     \* (the text of a legend is free: the counts are compared on texts without one)
     /\ (Count(ls, KLegend) = 0 =>
           /\ Count(ls, LClassA) + Count(ls, LClassB) = Count(ls, KClose)
